@@ -601,6 +601,22 @@ def _nondefault_for(schema: Schema, fi: FI):
     return {"string": "x7", "bytes": b"x7", "bool": True, "float": 1.5, "double": 1.5}.get(t, 7)
 
 
+_FOREIGN = {}
+
+
+def _foreign_member(n: int):
+    """A NAMED member of some other Enum class carrying the number n (an int like any other for the field it is put in)."""
+    import betterproto
+
+    if n not in _FOREIGN:
+        import types
+
+        name = f"FOREIGN_{'M' if n < 0 else 'P'}{abs(n)}"
+        cls = types.new_class(f"ForeignEnum{'M' if n < 0 else 'P'}{abs(n)}", (betterproto.Enum,), exec_body=lambda ns: ns.update({name: n, "__module__": __name__}))
+        _FOREIGN[n] = cls(n)
+    return _FOREIGN[n]
+
+
 class BPAdapter:
     """tree -> betterproto message.
 
@@ -633,6 +649,8 @@ class BPAdapter:
         if fi.type == "enum":
             if self.enum_as == "member":
                 return elem_cls.try_value(v)
+            if self.enum_as == "foreign":
+                return _foreign_member(v)
             return v
         return v
 
